@@ -251,6 +251,14 @@ func (p *prop) Generate(rng *core.Rand, tier string, emit func(string)) {
 		k := genCase(rng)
 		emit(k.line())
 	}
+	// Caddyfile glue: the adapter's reading of the options that configure all of the above
+	ncf := n / 10
+	for c := 0; c < ncf; c++ {
+		emit(genCF(rng))
+	}
+	for _, l := range []string{"cf . 0 . .", "cf _ 0 _ _", "cf . 3 . .", "cf . 0 .", "cf zz 0 . .", "cf 2b 0 . ."} {
+		emit(l)
+	}
 	// a malformed stream: both sides must answer bad-op
 	for _, l := range []string{
 		"", "req", "nope 1 2 3", "req nil nil 0 . 000 - 0 - . . 0 0",
